@@ -281,13 +281,20 @@ func (r *Rec) writeViolation(key string, c any, msg string) string {
 	// one file per (sub,key): rapid calls the property again while shrinking, so the file ends up
 	// holding the minimal failing case.
 	name := fmt.Sprintf("viol_%s_%s_%s.json", r.Prop, sanitize(r.Sub), sanitize(key))
+	if idx, n := Shard(); n > 1 {
+		// shards run in parallel: each writes its own file
+		name = fmt.Sprintf("viol_%s_%s_%s_s%d.json", r.Prop, sanitize(r.Sub), sanitize(key), idx)
+	}
 	path := filepath.Join(OutDir(), name)
+	tmp := path + ".tmp"
 	doc := map[string]any{"property": r.Prop, "sub": r.Sub, "key": key, "message": msg, "case": c}
 	b, err := json.MarshalIndent(doc, "", " ")
 	if err != nil {
 		b, _ = json.Marshal(map[string]any{"property": r.Prop, "sub": r.Sub, "key": key, "message": msg, "case": fmt.Sprintf("%+v", c)})
 	}
-	_ = os.WriteFile(path, b, 0o644)
+	if os.WriteFile(tmp, b, 0o644) == nil {
+		_ = os.Rename(tmp, path)
+	}
 	found := false
 	for _, f := range r.violFiles {
 		if f == path {
